@@ -636,7 +636,8 @@ class StorageBackend:
             )
 
         subruns = chunk_info.get("subruns", None)
-        if chunk_info["run_id"].startswith("_") and subruns is None:
+        is_empty = chunk_info["start"] == chunk_info["end"]
+        if chunk_info["run_id"].startswith("_") and subruns is None and not is_empty:
             raise ValueError(f"Superrun {chunk_info} has no subruns information!")
 
         chunk = strax.Chunk(
